@@ -21,10 +21,15 @@ def build_pieces(case, conc):
     ax = case["axis"]
     n = case["root"]["len"] if ax == "time" else case["root"]["nchan"]
     b = [0] + list(case["cuts"]) + [n]
+    # the emitted mask describes the pieces AFTER the perturbation; a swap exchanged two entries
+    mask = list(case["hasT"])
+    if case["pert"][0] == "swap":
+        i = case["pert"][1] - 1
+        mask[i], mask[i + 1] = mask[i + 1], mask[i]
     pieces = []
     for i in range(len(b) - 1):
         p = rs[b[i]:b[i + 1]] if ax == "time" else rs[:, b[i]:b[i + 1]]
-        if not case["hasT"][i] and p.start_time is not None:
+        if not mask[i] and p.start_time is not None:
             p = type(p).like(p, start_time=None)
         pieces.append(p)
     return rs, pieces
